@@ -1448,7 +1448,50 @@ class MirFn:
             self._lt = {l_["l"]: l_.get("ty") for l_ in self.mir.get("locals") or [] if isinstance(l_, dict)}
         return self._lt
 
-    def feasible(self, path, adts=None):
+    def downcast_payload(self, term):
+        """value of `(x as V).N` when x is a local all of whose definitions are enum aggregates: the N-th operand of the (only) definition that builds variant V
+        (the other definitions cannot reach a use behind a downcast to V).  None when the term is not of that form."""
+        t = term
+        if not (isinstance(t, tuple) and len(t) == 3 and t[0] == "proj" and isinstance(t[2], str) and t[2].startswith(".")):
+            return None
+        dc = t[1]
+        if not (isinstance(dc, tuple) and len(dc) == 3 and dc[0] == "proj" and isinstance(dc[2], str) and dc[2].startswith("@")):
+            return None
+        root = dc[1]
+        if not (isinstance(root, tuple) and root[0] in ("phi", "local") and len(root) > 1):
+            return None
+        defs = self.defs.get(root[1], [])
+        cands = [node for _, kind, node in defs if kind == "assign" and node["rv"]["k"] == "agg" and node["rv"].get("variant") == dc[2][1:]]
+        if len(cands) != 1 or not all(kind == "assign" and node["rv"]["k"] == "agg" for _, kind, node in defs):
+            return None
+        rv = cands[0]["rv"]
+        try:
+            idx = (rv.get("fnames") or []).index(t[2][1:])
+        except ValueError:
+            return None
+        return self.sym_op(rv["ops"][idx])
+
+    def decided_switch(self, b, adts=None, limit=2000):
+        """the switch ending block b makes no decision of its own: on every feasible path from the entry its operand is a constant the path already
+        established (a status / Option built on one side of an earlier test and taken apart again after a helper returned it)"""
+        t = self.cfg.blocks[b]["term"]
+        if t["k"] != "switch":
+            return False
+        pl = t["discr"].get("copy") or t["discr"].get("move")
+        if not pl or pl.get("p"):
+            return False
+        n = 0
+        for p_ in self.paths(0, b, limit):
+            n += 1
+            # append a pseudo-successor-free evaluation: known values just before b's terminator
+            known = self.feasible(p_, adts, want_known=True)
+            if known is False:
+                continue
+            if pl["l"] not in known:
+                return False
+        return n > 0
+
+    def feasible(self, path, adts=None, want_known=False):
         """False when the path contradicts itself: it passes a block that gives a local a known constant (bool, integer, enum variant) and later takes an edge of a
         switch on that local (or on its discriminant) that the constant does not select.  Removes the infeasible paths a flag / status enum introduces."""
         known = {}
@@ -1494,7 +1537,7 @@ class MirFn:
                         root = same.get(pl["l"], pl["l"])
                         for x_ in [pl["l"], root] + [x_ for x_, r_ in same.items() if r_ == root]:
                             known[x_] = learned
-        return True
+        return known if want_known else True
 
     def phi_alts(self, term):
         """[(def block, value term)] for a term that is a merge of several definitions: a phi local, or component `.N` of a phi local whose definitions are tuple
